@@ -124,6 +124,7 @@ type PathResult struct {
 	Msg         string
 	Steps       int
 	Queries     int
+	SolverS     float64
 	Unknown     int
 	Violations  []*Violation
 	Covers      []string
